@@ -776,27 +776,48 @@ pub fn execute(ctx: &Arc<Ctx>) {
     for h in handles { h.join().ok(); }
     rt::emit("callers-done");
 
+    let flush_needed = prog.pool == 0 || ctx.max_pool.load(Ordering::SeqCst) == 0 || ctx.pool_changed.load(Ordering::SeqCst) || prog.chans > 0;
+    let expected = ctx.calls.iter().filter(|c| c.accepted.load(Ordering::SeqCst) && matches!(c.kind, "desync" | "fdesync" | "after")).count();
+    let wait_all = |ctx: &Arc<Ctx>| {
+        ctx.main_waiting.store(true, Ordering::SeqCst);
+        let mut d = ctx.done.lock().unwrap();
+        while *d < expected { d = ctx.done_cv.wait(d).unwrap(); }
+        ctx.main_waiting.store(false, Ordering::SeqCst);
+    };
     // every remaining kept future is dropped (its operation must still run: C07); each drop is an event of its own, because
-    // dropping a future that a queue is waiting to be polled by hands that queue back
-    {
+    // dropping a future that a queue is waiting to be polled by hands that queue back.  Resumers (and suspend futures) go first:
+    // they hold their queues suspended.  With a pool, the futures of asynchronous operations are kept alive a little longer:
+    // an operation whose future was polled once and then left alone must be carried on by the pool when it is woken
+    // (C06, C03), without anybody polling or dropping the future.
+    let mut dropped = 0;
+    let mut drop_kept = |ctx: &Arc<Ctx>, resumers: bool| {
         let mut keys: Vec<usize> = ctx.futs.lock().unwrap().keys().cloned().collect();
         keys.sort();
-        for (n, k) in keys.into_iter().enumerate() {
+        for k in keys {
+            let is_res = matches!(ctx.futs.lock().unwrap().get(&k), Some(Fut::Resumer(..)) | Some(Fut::Suspend(..)));
+            if is_res != resumers { continue; }
             let fut = ctx.futs.lock().unwrap().remove(&k);
             if let Some(fut) = fut {
                 let of = match &fut { Fut::Sched(_, of) | Fut::Boxed(_, of) | Fut::Suspend(_, of) | Fut::Resumer(_, of) => *of };
-                let id = ctx.ncalls + 3_000_000 + n;
+                let id = ctx.ncalls + 3_000_000 + dropped;
+                dropped += 1;
                 rt::emit(&format!("inv {} dropf {}", id, of));
                 if let Fut::Resumer(..) = &fut { ctx.calls[of].end.store(ctx.tick(), Ordering::SeqCst); rt::emit(&format!("rsend {}", of)); }
                 drop(fut);
                 rt::emit(&format!("ret {} ok", id));
             }
         }
+    };
+    drop_kept(ctx, true);
+    if !flush_needed {
+        ctx.status.lock().unwrap().insert(1000, (usize::MAX, "wait-kept-futures", usize::MAX));
+        wait_all(ctx);
+        ctx.status.lock().unwrap().remove(&1000);
     }
+    drop_kept(ctx, false);
 
     // With no pool thread, accepted asynchronous work only runs when a caller runs the queue:
     // flush with sync calls first (C04 makes those return).
-    let flush_needed = prog.pool == 0 || ctx.max_pool.load(Ordering::SeqCst) == 0 || ctx.pool_changed.load(Ordering::SeqCst) || prog.chans > 0;
     if flush_needed {
         for _pass in 0..(prog.objects + 1) {
             for o in 0..prog.objects {
@@ -814,13 +835,7 @@ pub fn execute(ctx: &Arc<Ctx>) {
     }
 
     // Wait until every accepted asynchronous operation has completed, without touching the API (C03)
-    let expected = ctx.calls.iter().filter(|c| c.accepted.load(Ordering::SeqCst) && matches!(c.kind, "desync" | "fdesync" | "after")).count();
-    {
-        ctx.main_waiting.store(true, Ordering::SeqCst);
-        let mut d = ctx.done.lock().unwrap();
-        while *d < expected { d = ctx.done_cv.wait(d).unwrap(); }
-        ctx.main_waiting.store(false, Ordering::SeqCst);
-    }
+    wait_all(ctx);
     rt::emit("all-completed");
     if prog.chans > 0 { check_pipes(ctx); }
 
@@ -949,6 +964,7 @@ pub fn classify_deadlock(ctx: &Arc<Ctx>) -> Failure {
             "await-fsync" => { add("C08"); }
             "await-suspend" => { add("C13"); }
             "despawn" => { add("C17"); }
+            "wait-kept-futures" => { add("C06"); add("C03"); add("C07"); }
             "next" => { add("C12"); }
             "pipe" | "pipein" => { add("C11"); add("C04"); }
             "desync" | "fdesync" | "after" | "fsync" | "trysync" | "suspend" => { add("C03"); if *kind == "trysync" { add("C09"); } }
